@@ -95,6 +95,9 @@ def cross_correlation_shift(
 
     # Correlation
     cc = F_ref * xp.conj(F_im)
+    # the mean of the images only adds a constant to the correlation; drop its zero-frequency
+    # term, which costs single-precision input most of its significant digits
+    cc[0, 0] = 0
     cc_real = xp.real(xp.fft.ifft2(cc))
 
     if max_shift is not None:
@@ -202,6 +205,9 @@ def align_images_fourier_torch(
     """
     device = G1.device
     cc = G1 * G2.conj()
+    # the mean of the images only adds a constant to the correlation; in single precision its
+    # (huge) zero-frequency term would swamp the peak in the DFT-upsampled patch
+    cc[..., 0, 0] = 0
     cc_real = torch.fft.ifft2(cc).real
 
     # local max (integer)
